@@ -100,6 +100,9 @@ def make_replayer(info):
     from harness import replay_gen
     def replayer(job, label, vals, data):
         """native replay of a round-trip counterexample: the traced inputs are written and read back by the REAL codec"""
+        if label.startswith('C01/via-C03/'):
+            from checks import c03
+            return c03.make_replayer(info)(job, 'C03/' + label[len('C01/via-C03/'):], vals, data)
         parts = label.split('/')
         if len(parts) < 4 or parts[2] != 'roundtrip': return None, 'no native observation point'
         cn, clause = parts[1], parts[3]
@@ -150,11 +153,23 @@ def main():
         if only and cn not in only: continue
         k = known.get('C01_%s_roundtrip' % cn)
         if k: comp += rt_jobs(info, cn, nmax, extra_assume='!(%s)' % k['exclude_requires'], suffix='__finding')
+    # the length dimension beyond the enumerated sizes and the stream stage between write() and read(): the count-level
+    # encoder contract of every class (C03: every container emitted whole, objectSize == bytes emitted, for EVERY length)
+    # and the byte-FIFO contract of the in-memory stream (C15) are discharged here as well, under C01 labels
+    borrowed = []
+    if not only:
+        from checks import c03, c15
+        k3 = {k['job']: k for k in core.load_known() if k.get('property') == 'C03' and k.get('status') == 'open' and k.get('job')}
+        for cn in info.codec_classes():
+            kk = k3.get('C03_%s_write' % cn)
+            borrowed.append(core.borrow(c03.harness(info, cn, extra_requires=kk['exclude_requires'] if kk else None), 'C03', 'C01'))
+        borrowed += [core.borrow(j, 'C15', 'C01') for j in c15.jobs(1, 600) if j.name.split('UncompressedFile_')[-1] == 'read']
+        borrowed += [core.borrow(j, 'C15', 'C01') for j in c15.jobs(2, 600) if j.name.split('UncompressedFile_')[-1] == 'write']     # 2 held containers: a write that crosses a boundary
     rep = core.Report('C01')
     rep.assumptions = ['payload content round trip is checked for container lengths <= %d only (bounded stand-in); the length dimension beyond that is covered at count level by C03 (emitted == objectSize for every length) and C10 (consumption)' % nmax,
                        'stream semantics of the BYTES flavour are those C15 proves of UncompressedFile',
                        'threads, zlib and the file system are not part of these obligations (C04/C05/C08/C15/C16 carry the stage contracts)']
-    results = core.run_jobs(jobs + comp)
+    results = core.keep_property(core.run_jobs(jobs + comp + borrowed), 'C01')
     cres = [r for r in results if r.job.name.endswith('__finding')]
     results = [r for r in results if not r.job.name.endswith('__finding')]
     rep.add_results(results)
